@@ -59,6 +59,14 @@ class MuxModel:
         self.txn = None           # dict(reg, last, capture (value|None), written {k: v})
         self.pending_w = None     # A2 payload to compare when w_stb fires next cycle
 
+    def reset(self):
+        """Warm reset of the multiplexer at this clock edge: no read or write is in flight any more, the shadow
+        registers hold nothing (the driver has to start its next transaction from a first chunk)."""
+        self.prev = None
+        self.txn = None
+        self.pending_w = None
+        self.prev_capture = None
+
     def readable(self, i):
         return "r" in self.regs[i]["access"]
 
